@@ -36,12 +36,29 @@ def clear_registries():
             c.Clear()
 
 
+class _Sink(object):
+    """Where the console writes when a run turns its verbosity up: nowhere (the check's own output stays parseable)."""
+    name = "<sink>"
+    closed = False
+
+    def write(self, msg):
+        return len(msg)
+
+    def flush(self):
+        pass
+
+
 @contextlib.contextmanager
-def world(faults=None, out=None, cap=64, latency=0, eph=None, trace=None, extra=()):
+def world(faults=None, out=None, cap=64, latency=0, eph=None, trace=None, extra=(), verbosity=0):
     """Yields a Net with every ioflo module's `socket` name replaced; `extra` is a list of
     (module name, attribute, replacement) applied and restored as well."""
     import importlib
-    quiet_console()
+    import sys
+    con = quiet_console()
+    if verbosity:
+        # the console's verbosity is configuration like any other knob: diagnostic branches run real code too
+        con._verbosity = verbosity
+        con._file = _Sink()
     clear_registries()
     net = Net(faults=faults, out=out, cap=cap, latency=latency, eph=eph, trace=trace)
     saved = []
@@ -58,4 +75,7 @@ def world(faults=None, out=None, cap=64, latency=0, eph=None, trace=None, extra=
     finally:
         for mod, attr, val in reversed(saved):
             setattr(mod, attr, val)
+        if verbosity:
+            con._verbosity = 0
+            con._file = sys.stdout
         clear_registries()
